@@ -22,6 +22,7 @@ E == T[l]
 G == Tr.given
 Ref == Tr.ref
 Is(e) == l <= Len(T) /\ E.ev = e /\ pend = <<>>
+Bound == Tr.kind = "rom"       \* kind "anchor": a golden file of the reference tool, walked by the automaton alone (no builder input to compare with)
 Adv == l' = l + 1 /\ UNCHANGED tid
 NoP == UNCHANGED <<psec, pcmd>>
 Min(a, b) == IF a < b THEN a ELSE b
@@ -75,25 +76,26 @@ TField == /\ l <= Len(T) /\ E.ev = "Field" /\ pend # <<>> /\ E.name = Head(pend)
           /\ (Waived(E.name) \/ FieldOk(E.name))
           /\ pend' = Tail(pend) /\ UNCHANGED rvars /\ NoP /\ Adv
 
-TParseHeader == Is("ParseHeader") /\ Tr.kind = "rom" /\ ParseHeader(E) /\ pend' = HeaderMarkers /\ NoP /\ Adv
+TParseHeader == /\ Is("ParseHeader") /\ Tr.kind \in {"rom", "anchor"} /\ ParseHeader(E)
+                /\ pend' = (IF Bound THEN HeaderMarkers ELSE <<>>) /\ NoP /\ Adv
 TUnwrap == Is("UnwrapKeyBlob") /\ UnwrapKeyBlob(E) /\ UNCHANGED pend /\ NoP /\ Adv
 THdrMac == Is("CheckHeaderMac") /\ (CheckHeaderMac20(E) \/ CheckHeaderMac21(E)) /\ UNCHANGED pend /\ NoP /\ Adv
 CertGiven == E.count = G.chain /\ E.rootIdx = G.rootIdx /\ E.rkth = G.rkth       \* the chain and the root-key table that were supplied
-TCert == Is("ParseCertBlock") /\ (ParseCertBlock21(E) \/ ParseCertBlock20(E)) /\ CertGiven /\ UNCHANGED pend /\ NoP /\ Adv
-TSig == Is("VerifySignature") /\ (VerifySignature21(E) \/ VerifySignature20(E)) /\ E.sigLen = G.sigLen /\ UNCHANGED pend /\ NoP /\ Adv
+TCert == Is("ParseCertBlock") /\ (ParseCertBlock21(E) \/ ParseCertBlock20(E)) /\ (Bound => CertGiven) /\ UNCHANGED pend /\ NoP /\ Adv
+TSig == Is("VerifySignature") /\ (VerifySignature21(E) \/ VerifySignature20(E)) /\ (Bound => E.sigLen = G.sigLen) /\ UNCHANGED pend /\ NoP /\ Adv
 TSha == Is("CheckSha") /\ CheckSha(E) /\ UNCHANGED pend /\ NoP /\ Adv
 TTag == /\ Is("SectionTag") /\ SectionTag(E)
-        /\ pend' = IF E.cert THEN <<>> ELSE SectionMarkers
+        /\ pend' = (IF E.cert \/ ~Bound THEN <<>> ELSE SectionMarkers)
         /\ NoP /\ Adv
 THmac == Is("SectionHmac") /\ SectionHmac(E) /\ UNCHANGED pend /\ NoP /\ Adv
 TCmd == /\ Is("Cmd") /\ Cmd(E)
-        /\ Len(dec) <= Len(G.secs) /\ E.i + 1 <= Len(G.secs[Len(dec)].cmds)
-        /\ Matches(dec'[Len(dec)].cmds[E.i + 1], G.secs[Len(dec)].cmds[E.i + 1])            \* command for command
+        /\ (Bound => /\ Len(dec) <= Len(G.secs) /\ E.i + 1 <= Len(G.secs[Len(dec)].cmds)
+                      /\ Matches(E, G.secs[Len(dec)].cmds[E.i + 1]))                          \* command for command
         /\ UNCHANGED pend /\ NoP /\ Adv
 TSecEnd == /\ Is("SectionEnd") /\ SectionEnd(E)
-           /\ (~needCert => Len(dec[Len(dec)].cmds) = Len(G.secs[Len(dec)].cmds))             \* no command missing
+           /\ (Bound /\ ~needCert => Len(dec[Len(dec)].cmds) = Len(G.secs[Len(dec)].cmds))     \* no command missing
            /\ UNCHANGED pend /\ NoP /\ Adv
-TAccept == Is("Accept") /\ Accept(E) /\ sec = Len(G.secs) /\ UNCHANGED pend /\ NoP /\ Adv     \* section for section
+TAccept == Is("Accept") /\ Accept(E) /\ (Bound => sec = Len(G.secs)) /\ UNCHANGED pend /\ NoP /\ Adv     \* section for section
 
 \* ---- second observer: SPSDK's parse()
 PFieldOk(n, got) ==
